@@ -245,6 +245,7 @@ def hard_point(spec: dict) -> bool:
 
 
 CHUNK = 1
+CHUNK_TIMEOUT = 6000
 
 
 def n_runs(tier: str) -> int:
